@@ -79,7 +79,7 @@ class Interp:
             if isinstance(n, (ast.ListComp, ast.SetComp, ast.DictComp, ast.GeneratorExp)) and len(n.generators) == 1 and not n.generators[0].is_async:
                 g = n.generators[0]
                 seq = ev(g.iter, env, hook)
-                if isinstance(seq, Opaque) or isinstance(seq, str):
+                if isinstance(seq, Opaque) or (isinstance(seq, str) and len(seq) > 256):
                     raise Unknown('comprehension over an uncomputable sequence')
                 out = {} if isinstance(n, ast.DictComp) else []
                 for x in list(seq):
@@ -97,7 +97,11 @@ class Interp:
                 return (True, set(out) if isinstance(n, ast.SetComp) else out)
             if isinstance(n, ast.Lambda):
                 return (True, Lam(n, env))
-            if self.resolver is not None and isinstance(n, ast.Attribute) and isinstance(n.ctx, ast.Load) and unparse(n) not in env and isinstance(n.value, ast.Name) and not isinstance(getattr(n, '_parent', None), ast.Call):
+            if self.resolver is not None and isinstance(n, ast.Name) and isinstance(n.ctx, ast.Load) and n.id not in env and not (isinstance(getattr(n, '_parent', None), ast.Call) and n._parent.func is n):
+                callee = self.resolver(ast.Call(func=n, args=[], keywords=[]))
+                if callee is not None:
+                    return (True, FuncRef(callee, False))
+            if self.resolver is not None and isinstance(n, ast.Attribute) and isinstance(n.ctx, ast.Load) and unparse(n) not in env and isinstance(n.value, ast.Name) and not (isinstance(getattr(n, '_parent', None), ast.Call) and n._parent.func is n):
                 callee = self.resolver(ast.Call(func=n, args=[], keywords=[]))
                 if callee is not None:
                     static = any(isinstance(d, ast.Name) and d.id == 'staticmethod' for d in callee.decorator_list)
@@ -171,6 +175,61 @@ class Interp:
             ref = env[fn.id]
             fake = ast.Call(func=ast.Attribute(value=ast.Name(id='cls', ctx=ast.Load()), attr=ref.func.name, ctx=ast.Load()) if ref.bound else ast.Name(id=ref.func.name, ctx=ast.Load()), args=n.args, keywords=n.keywords)
             return (True, self._inline(fake, ref.func, env))
+        if isinstance(fn, ast.Name) and fn.id == 'sorted' and len(n.args) == 1 and n.keywords and all(k.arg in ('key', 'reverse') for k in n.keywords):
+            seq = self.value(n.args[0], env)
+            if isinstance(seq, (list, tuple)):
+                keyf, rev = None, False
+                for k in n.keywords:
+                    if k.arg == 'reverse':
+                        rev = self.value(k.value, env)
+                        if not isinstance(rev, bool):
+                            raise Unknown('sorted(reverse=<uncomputable>) (%s)' % loc(n))
+                    elif isinstance(k.value, ast.Call) and unparse(k.value.func) in ('operator.itemgetter', 'itemgetter') and len(k.value.args) == 1:
+                        idx = self.value(k.value.args[0], env)
+                        keyf = lambda x, idx=idx: x[idx]        # noqa: E731
+                    else:
+                        kv = self.value(k.value, env)
+                        if isinstance(kv, Lam) and len(kv.node.args.args) == 1:
+                            keyf = lambda x, kv=kv: self.value(kv.node.body, dict(kv.env, **{kv.node.args.args[0].arg: x}))      # noqa: E731
+                        else:
+                            raise Unknown('sorted(key=<uncomputable>) (%s)' % loc(n))
+                return (True, sorted(seq, key=keyf, reverse=rev))
+        if isinstance(fn, ast.Name) and fn.id == 'map' and len(n.args) == 2 and not n.keywords:
+            fobj = self.value(n.args[0], env)
+            seq = self.value(n.args[1], env)
+            if isinstance(seq, str) and len(seq) <= 256:
+                seq = list(seq)
+            if isinstance(seq, (list, tuple)) and isinstance(fobj, (FuncRef, Lam)) and all(isinstance(x, (str, int, bytes, bool, type(None))) for x in seq):
+                out = []
+                for x in seq:
+                    arg = ast.copy_location(ast.Constant(value=x), n)
+                    if isinstance(fobj, Lam):
+                        ps = [a.arg for a in fobj.node.args.args]
+                        if len(ps) != 1:
+                            raise Unknown('map() with a lambda of %d parameters' % len(ps))
+                        e2 = dict(fobj.env)
+                        e2[ps[0]] = x
+                        out.append(self.value(fobj.node.body, e2))
+                    else:
+                        fake = ast.Call(func=ast.Attribute(value=ast.Name(id='cls', ctx=ast.Load()), attr=fobj.func.name, ctx=ast.Load()) if fobj.bound else ast.Name(id=fobj.func.name, ctx=ast.Load()), args=[arg], keywords=[])
+                        out.append(self._inline(fake, fobj.func, env))
+                return (True, out)
+            raise Unknown('map() over an uncomputable function or sequence (%s)' % loc(n))
+        if isinstance(fn, ast.Name) and fn.id == 'getattr' and 2 <= len(n.args) <= 3 and not n.keywords:
+            try:
+                nm = self.value(n.args[1], env)
+            except Unknown:
+                nm = None
+            if isinstance(nm, str) and nm.isidentifier():
+                fake = ast.Attribute(value=n.args[0], attr=nm, ctx=ast.Load())
+                ast.copy_location(fake, n)
+                try:
+                    return (True, self.value(fake, env))
+                except Crash:
+                    raise
+                except Unknown:
+                    if len(n.args) == 3:
+                        return (True, self.value(n.args[2], env))
         if isinstance(fn, ast.Name) and fn.id in ('ord', 'chr') and len(n.args) == 1:
             v = self.value(n.args[0], env)
             if fn.id == 'ord' and isinstance(v, (str, bytes)) and len(v) == 1:
@@ -307,7 +366,7 @@ class Interp:
             e2 = {k: v for k, v in env.items() if not (isinstance(k, str) and k.startswith('<'))}
         else:
             # facts about the receiver and about class-level names (Class.CONSTANT) stay valid inside the callee; the caller's locals do not
-            e2 = {k: v for k, v in env.items() if isinstance(k, str) and (k == 'self' or k.startswith('self.') or (k[:1].isupper() and '.' in k))}
+            e2 = {k: v for k, v in env.items() if isinstance(k, str) and (k in ('self', 'cls') or k.startswith('self.') or k.startswith('cls.') or (k[:1].isupper() and '.' in k))}
         defaults = callee.args.defaults
         for p, d in zip(params[len(params) - len(defaults):], defaults):
             e2[p] = self.value(d, {})         # (a lambda default becomes a Lam closing over the empty environment)
@@ -346,6 +405,19 @@ class Interp:
         if isinstance(v, Opaque):
             raise Unknown('helper %s returns an uncomputable value' % callee.name)
         return v
+
+    @staticmethod
+    def _handler_for(trystmt, crash):
+        kind = 'KeyError' if 'KeyError' in crash else ('IndexError' if 'IndexError' in crash else ('ValueError' if 'ValueError' in crash else None))
+        if kind is None:
+            return None
+        for h in trystmt.handlers:
+            if h.type is None:
+                return h
+            names = [unparse(x) for x in (h.type.elts if isinstance(h.type, ast.Tuple) else [h.type])]
+            if kind in names or 'Exception' in names or 'BaseException' in names or ('LookupError' in names and kind in ('KeyError', 'IndexError')):
+                return h
+        return None
 
     def bind_values(self, call, func, env, skip_self=False):
         """{parameter: evaluated argument} of a call to `func` -- positional, *sequence, keyword and **mapping arguments, declared defaults for the rest
@@ -731,9 +803,24 @@ class Interp:
             return self._block(st.body, [e])
         if isinstance(st, ast.Try) and self.try_normal_path:
             f1, n1 = self._block(st.body, [e])
+            # a definite exception of the body (a subscript / index of a concrete container that does not exist) enters the handler that catches it
+            caught, still = [], []
+            for fe in f1:
+                c = fe.get('<crash>')
+                h = self._handler_for(st, c) if c else None
+                if h is None:
+                    still.append(fe)
+                    continue
+                fe.pop('<crash>', None)
+                fe.pop('<outcome>', None)
+                if h.name:
+                    fe[h.name] = Opaque()
+                fh, nh = self._block(h.body, [fe])
+                still.extend(fh)
+                caught.extend(nh)
             f2, n2 = self._block(st.orelse, n1) if st.orelse else ([], n1)
-            f3, n3 = self._block(st.finalbody, n2) if st.finalbody else ([], n2)
-            return f1 + f2 + f3, n3
+            f3, n3 = self._block(st.finalbody, n2 + caught) if st.finalbody else ([], n2 + caught)
+            return still + f2 + f3, n3
         if isinstance(st, ast.Try):
             if self._effectful(st, e):
                 raise Unknown('try statement with an observable effect: %s (%s)' % (stmt_text(st)[:60], loc(st)))
